@@ -333,6 +333,9 @@ func replayC05(c *h.Ctx, cs h.Case) {
 	if cs.Kind == "shared" {
 		doc, vars = c05SharedDoc(cs.Extra["doc"])
 	}
+	if cs.Kind == "static" {
+		doc, vars = any(c05StaticDoc), map[string]any{"s": c05StaticVar}
+	}
 	subvals := map[string]bool{}
 	subValueSet(doc, subvals)
 	for _, v := range vars {
@@ -350,6 +353,15 @@ func replayC05(c *h.Ctx, cs h.Case) {
 		}
 	}
 }
+
+// c05StaticDoc, c05StaticVar: values written as package-level composite literals.
+var c05StaticDoc = []any{
+	map[string]any{"a": 1.0, "b": "x", "o": map[string]any{"k": true}},
+	map[string]any{"c": nil, "o": map[string]any{"m": 2.5, "n": []any{1.0}}},
+	[]any{map[string]any{"d": "y"}, map[string]any{"e": 3.0, "f": 4.0}},
+}
+
+var c05StaticVar = []any{map[string]any{"p": 1.0, "q": 2.0}, []any{map[string]any{"r": "z"}}}
 
 var c05SharedNames = []string{"people", "table", "rows", "var-and-doc", "tree"}
 
@@ -609,6 +621,8 @@ func runC05(c *h.Ctx) {
 							switch o.Class {
 							case h.Panic:
 								c.Violate("panic", h.F("entry", entry, "site", stackSite(o.Stack)), fmt.Sprintf("%s(%s), context done after poll %d: panic %s", entry, pt, n, o.Panic), cs)
+							case h.Invalid:
+								c.Violate("invalid", h.F("entry", entry, "when", "context-done-between-polls"), fmt.Sprintf("%s(%s), context done after poll %d of %d: %q is exec.ErrInvalid", entry, pt, n, base.Polls, o.Err), cs)
 							case h.Other:
 								c.Violate("class", h.F("entry", entry, "kind", "not-ErrExecution", "when", "context-done-between-polls"), fmt.Sprintf("%s(%s), context done after poll %d of %d: error %q wraps neither ErrExecution nor is NULL", entry, pt, n, base.Polls, o.Err), cs)
 							default:
@@ -651,6 +665,30 @@ func runC05(c *h.Ctx) {
 							universal(c, e, p, mode+pt, doc, h.Opts{Vars: vars, Silent: silent}, cs, subvals)
 						}
 					}
+				}
+			}
+		}
+	}
+	// (b4) a document that is a package-level composite literal: its arrays lie
+	// in the program's data segment, its maps on the heap, far apart
+	{
+		k := 0
+		subvals := map[string]bool{}
+		subValueSet(c05StaticDoc, subvals)
+		for _, pt := range []string{"$[*].keyvalue()", "$[*].keyvalue().id", "$[0].keyvalue().value", "$[*].o.keyvalue().key", "$[2][*].keyvalue()", "strict $[*].keyvalue().id", "$.**.keyvalue().id", "$[*] ? (@.keyvalue().id > 0)", "$[*].keyvalue().value.keyvalue()", "$s[*].keyvalue().id", "$s[1][*].keyvalue().key"} {
+			k++
+			if !c.Mine(k) {
+				continue
+			}
+			p := cachedPath(pt)
+			if p == nil {
+				c.Count("gen.unparsable", 1)
+				continue
+			}
+			for _, silent := range []bool{false, true} {
+				for _, e := range h.Entries {
+					c.Journal("static document " + pt)
+					universal(c, e, p, pt, any(c05StaticDoc), h.Opts{Silent: silent, Vars: map[string]any{"s": c05StaticVar}}, h.Case{Kind: "static", Path: pt, Silent: silent}, subvals)
 				}
 			}
 		}
